@@ -9,8 +9,9 @@
 //
 // Documented behaviour the reference implements (sources cited at the place of use):
 //  * find_scale_factor (convert_array.h): identical types -> scale 1; scale 0 -> maximum range of the
-//    output type; scale != 0 -> used unless the data do not fit, then as in the 0 case; negative numbers are
-//    cut to 0 when the output type is unsigned; integer output is rounded.
+//    output type (floating point output types: as scale 1); scale != 0 -> used unless the data do not fit, then as
+//    in the 0 case; negative numbers are cut to 0 when the output type is unsigned; integer output is rounded;
+//    a non-zero scale factor is never smaller than the smallest normalised value of its type (FLT_MIN).
 //  * OutputFileFormat::set_scale_to_write_data: "except for floats and doubles in which case no rescaling occurs".
 //  * header numbers are streamed with 6 significant digits (DESIGN.md section 10 item 4): offsets, voxel
 //    sizes, scale factors and frame times are compared to 5e-6 relative (half a unit in the 6th digit) and no tighter.
@@ -424,22 +425,18 @@ scale_setting(const json& c, const std::vector<std::vector<float>>& data)
   if (!t.is_int)
     return float(fac);
   // relative to what the data need (maximum over the data sets)
-  const bool guard = f.value("wide_guard", false);
-  const long double tmax_eff = guard ? std::min<long double>(t.tmax, 2147483647.L) : t.tmax;
-  if (guard && fac < 1.02)
-    fac += 1.;
   double need = 0;
   for (auto& d : data)
-    need = std::max(need, needed_scale(d, t, tmax_eff) * 1.01);
+    need = std::max(need, needed_scale(d, t, t.tmax) * 1.01);
   if (!(need > 0))
     return float(fac);
   const float s = float(need * fac);
   return (s > 0 && std::isfinite(s)) ? s : 1.F;
 }
 
-// database names (src/config/radionuclide_info.json). ^64^Copper (no "keV") and ^131^Iodine ("kev") make
-// RadionuclideDB::get_radionuclide_from_json call error(): they cannot be constructed from the database at all and
-// are generated as hand-made Radionuclide objects in the labelled class F9 only.
+// database names (src/config/radionuclide_info.json). ^64^Copper and ^131^Iodine are database entries too; they are
+// generated as hand-made Radionuclide objects carrying the database's values (FREE_RN), so that the header names a nuclide
+// that the reader looks up in the database.
 const char* const DB_PT[] = { "^18^Fluorine", "^11^Carbon", "^13^Nitrogen", "^15^Oxygen", "^68^Gallium", "^68^Germanium", "^90^Yttrium" };
 const int N_DB_PT = 7;
 const char* const DB_NM[] = { "^99m^Technetium", "^67^Gallium", "^177^Lutetium", "^90^Yttrium" };
@@ -1019,12 +1016,16 @@ check(const json& c)
       Result r = check_file_level(files[std::size_t(d)], data[std::size_t(d)], t, actual_big, setting, g, S[std::size_t(d)], cat("data set ", d + 1, " on file"));
       if (r.failed())
         return r;
-      // a fixed scale factor is used unless the data do not fit (convert_array.h, find_scale_factor)
+      // a fixed scale factor is used unless the data do not fit; a non-zero scale factor is never smaller than the
+      // smallest normalised value of its type (convert_array.h, find_scale_factor)
       if (t.is_int && setting > 0.F)
         {
           const double need = needed_scale(data[std::size_t(d)], t, t.tmax) * 1.01;
+          const double expected = std::max(double(setting), double(FLT_MIN));
+          if (setting < FLT_MIN)
+            stats().cls("fixed scale denormalised: raised to FLT_MIN by find_scale_factor");
           if (need <= double(setting) * 0.999)
-            VF_CHECK(rel_close(S[std::size_t(d)], double(setting), TOL_HDR), "data set ", d + 1, ": scale_to_write_data ", setting,
+            VF_CHECK(rel_close(S[std::size_t(d)], expected, TOL_HDR), "data set ", d + 1, ": scale_to_write_data ", setting,
                      " fits the data (needed ", need, ") but image scaling factor is ", S[std::size_t(d)]);
           else if (need > double(setting) * 1.001)
             stats().cls("fixed scale too small: raised by find_scale_factor");
@@ -1176,8 +1177,6 @@ gen_exam(Src& s, int container)
   e["mod"] = s.pick(mods);
   e["orient"] = int(s.range(0, 3));
   e["rot"] = int(s.range(0, 5));
-  if (!g_no_exclude && (e["rot"].get<int>() == int(PatientPosition::left) || e["rot"].get<int>() == int(PatientPosition::right)) && !s.chance(1, 8))
-    e["rot"] = int(s.pick(std::vector<int>{ 0, 1, 4, 5 })); // F4 (known finding): left/right are written as "other"
   // time frames: precondition of TimeFrameDefinitions(vector<pair>): in sequence, start <= end (error() otherwise)
   int nframes;
   if (container == SINGLE)
@@ -1200,13 +1199,11 @@ gen_exam(Src& s, int container)
   json rn;
   rn["kind"] = int(s.range(0, 2));
   rn["idx"] = int(s.range(0, 6 * 7 - 1)); // modulo 7 (PET), 4 (nucmed), 6 (free text)
-  if (!g_no_exclude && rn["idx"].get<int>() % N_FREE_RN >= 4 && !s.chance(1, 8))
-    rn["idx"] = rn["idx"].get<int>() - 3; // F9
   rn["hl"] = s.chance(1, 4) ? -1. : s.nice_real(1., 100000.);
   rn["br"] = s.chance(1, 3) ? -1. : s.real(0.01, 1.);
   e["rn"] = rn;
   json en;
-  en["kind"] = s.chance(1, g_no_exclude ? 10 : 50) ? 2 : int(s.range(0, 1)); // kind 2: F8
+  en["kind"] = s.chance(1, 10) ? 2 : int(s.range(0, 1)); // kind 2: window with lower level 0
   en["low"] = s.nice_real(50., 500.);
   en["high"] = en["low"].get<double>() + s.nice_real(1., 400.);
   e["en"] = en;
@@ -1256,8 +1253,6 @@ gen(Src& s, int size)
   f["scale_idx"] = int(s.range(0, 7));
   f["via_parser"] = s.chance(1, 4);
   f["multi_default"] = s.chance(1, 4);
-  const bool wide = type == T_UINT || type == T_LONG || type == T_ULONG;
-  f["wide_guard"] = false;
   c["trunc"] = { { "mode", s.chance(1, 12) ? 1 : 0 }, { "file", int(s.range(0, 3)) }, { "extra", int(s.range(1, 64)) } };
   // values
   json v;
@@ -1275,29 +1270,10 @@ gen(Src& s, int size)
   v["exp"] = int(s.range(0, N_EXPONENTS - 1));
   v["seed"] = s.seed64();
   c["vals"] = v;
-  if (!g_no_exclude)
-    {
-      // known findings (work/notes/C10_findings.md), excluded by construction; VERIF_NO_EXCLUDE=1 switches this off
-      if (wide && mode != 0)
-        { // F1: keep the quotients inside the range of int
-          mode = 1;
-          f["wide_guard"] = true;
-        }
-      else if (wide && !s.chance(1, 4))
-        {
-          mode = 1;
-          f["wide_guard"] = true;
-        }
-      if (type == T_DOUBLE && mode == 0 && !s.chance(1, 4))
-        mode = 2; // F2
-      if (is_unsigned && mode == 0 && (kind == 5 || ((kind == 2 || kind == 4) && neg)) && !s.chance(1, 8))
-        mode = 2; // F7
-    }
   f["scale_mode"] = mode;
   c["fmt"] = f;
   c["exam"] = gen_exam(s, container);
-  if (!g_no_exclude && c["exam"]["mod"].get<int>() == int(ImagingModality::NM) && (container == DYN_INTERFILE || container == PAR_INTERFILE) && !s.chance(1, 8))
-    c["exam"]["mod"] = int(s.pick(std::vector<int>{ 1, 1, 0, 3, 4 })); // F6
+  // known finding F5 (work/notes/C10_findings.md), excluded by construction; VERIF_NO_EXCLUDE=1 switches this off
   if (!g_no_exclude && container == PAR_INTERFILE && type != T_FLOAT && c["exam"]["frames"].size() >= 2 && !s.chance(1, 4))
     c["exam"]["frames"].erase(c["exam"]["frames"].begin() + 1, c["exam"]["frames"].end()); // F5
   return c;
@@ -1316,14 +1292,20 @@ predict_scale(const TInfo& t, float setting, const std::vector<float>& v)
       mx = std::max(mx, double(x));
       mn = std::min(mn, double(x));
     }
+  if (!t.is_signed && mx < 0)
+    mx = 0; // negative numbers are ignored when the output type is unsigned
   const double tmax = t.is_int ? double(t.tmax) : DBL_MAX, tmin = t.is_int ? double(t.tmin) : -DBL_MAX;
   double tmp = mx / tmax;
   if (t.is_signed)
     tmp = std::max(tmp, mn / tmin);
   tmp *= 1.01;
   float scale = setting;
+  if (scale == 0 && !t.is_int)
+    scale = 1.F; // floating point output is not rescaled to the maximum range
   if (scale == 0 || tmp > scale)
     scale = float(tmp);
+  if ((tmp > 0 || scale > 0) && scale < FLT_MIN)
+    scale = FLT_MIN; // a non-zero scale factor is never smaller than the smallest normalised value
   return scale;
 }
 
@@ -1332,84 +1314,22 @@ known_signature(const json& c)
 {
   if (g_no_exclude)
     return "";
-  // F4: write_interfile_patient_position writes rotation left/right as "other"
-  const int rot = c["exam"]["rot"].get<int>();
-  if (rot == int(PatientPosition::left) || rot == int(PatientPosition::right))
-    return "C10:patient-rotation-left-right-written-as-other";
-  // F9: radionuclide_info.json has no "keV" for ^64^Copper (PET) and ^131^Iodine (nucmed): a header naming them cannot be parsed
-  {
-    const ExamSpec es = exam_spec_of(c["exam"]);
-    if (es.rn_kind == 2 && ((es.rn_name == "^64^Copper" && es.mod == int(ImagingModality::PT)) || (es.rn_name == "^131^Iodine" && es.mod == int(ImagingModality::NM))))
-      return "C10:radionuclide-database-entry-without-keV-makes-header-unreadable";
-  }
-  // F8: an energy window with lower level 0 is written, but the reader only accepts it when both levels are > 0
-  if (c["exam"]["en"]["kind"].get<int>() == 2)
-    return "C10:energy-window-lower-level-0-dropped-on-reading";
   const int container = c["container"].get<int>();
-  const int D = num_datasets(c);
-  // F6: with modality NM the header says 'type of data := Tomographic', for which the reader does not know
-  //     'data offset in bytes': every data set of a dynamic/parametric Interfile image is read from offset 0
-  if (c["exam"]["mod"].get<int>() == int(ImagingModality::NM) && (container == DYN_INTERFILE || container == PAR_INTERFILE) && D >= 2)
-    return "C10:NM-modality-data-offset-in-bytes-ignored";
-  if (is_multi_default(c))
+  // F5: parametric Interfile image whose exam info has >= 2 time frames and identical scale factors != 1:
+  //     'quantification units' is written, the reader then expects frames x parameters identical factors
+  if (container != PAR_INTERFILE || c["exam"]["frames"].size() < 2)
     return "";
   const TInfo& t = TYPES[c["fmt"]["type"].get<int>()];
   if (t.id == NumericType::FLOAT)
     return "";
+  const int D = num_datasets(c);
   const long nv = grid_of(c["grid"]).nvox();
   std::vector<std::vector<float>> data;
   for (int d = 0; d < D; ++d)
     data.push_back(make_values(c["vals"], nv, d));
   const float setting = scale_setting(c, data);
-  std::vector<float> S;
-  for (int d = 0; d < D; ++d)
-    S.push_back(predict_scale(t, setting, data[std::size_t(d)]));
-  for (int d = 0; d < D; ++d)
-    {
-      bool any_nonzero = false;
-      double max_q = 0;
-      for (float x : data[std::size_t(d)])
-        {
-          if (t.is_int && !t.is_signed && x < 0)
-            continue; // truncated to 0
-          if (x != 0)
-            any_nonzero = true;
-          if (S[std::size_t(d)] != 0)
-            max_q = std::max(max_q, std::fabs(double(x) / double(S[std::size_t(d)])));
-        }
-      // F2: find_scale_factor computes max/DBL_MAX*1.01 for double output and stores it in a float: 0
-      if (t.id == NumericType::DOUBLE && setting == 0.F && any_nonzero)
-        return "C10:double-output-automatic-scale-underflows-to-0";
-      // F7: unsigned output, automatic scale, all values negative: the scale factor becomes negative, the 0.1% test in
-      //     write_data_with_fixed_scale_factor fails, nothing is written and write_basic_interfile ignores that
-      //     (also when the maximum of the image is exactly 0 and one row along x is negative throughout: the row-wise
-      //     second call of find_scale_factor then replaces the scale 0 by a negative one)
-      if (t.is_int && !t.is_signed && S[std::size_t(d)] <= 0)
-        {
-          bool bad = S[std::size_t(d)] < 0;
-          const long nx = grid_of(c["grid"]).n[2];
-          const std::vector<float>& v = data[std::size_t(d)];
-          for (long r = 0; !bad && r * nx < long(v.size()); ++r)
-            {
-              float row_max = -FLT_MAX;
-              for (long i = 0; i < nx; ++i)
-                row_max = std::max(row_max, v[std::size_t(r * nx + i)]);
-              if (row_max < 0)
-                bad = true;
-            }
-          if (bad)
-            return "C10:unsigned-output-all-negative-data-negative-scale-short-file";
-        }
-      // F3: the scale factor is a float: max|v|/type_max underflows for tiny values and wide types
-      if (t.is_int && any_nonzero && std::fabs(S[std::size_t(d)]) < FLT_MIN)
-        return "C10:scale-factor-below-FLT_MIN";
-      // F1: convert_range rounds with stir::round(), which returns int: quotients beyond INT_MAX overflow (UINT, LONG, ULONG)
-      if (t.is_int && t.bytes >= 4 && max_q + 0.5 >= 2147483520.)
-        return "C10:round-returns-int-overflow-for-32bit-unsigned-and-64bit-types";
-    }
-  // F5: parametric Interfile image whose exam info has >= 2 time frames and identical scale factors != 1:
-  //     'quantification units' is written, the reader then expects frames x parameters identical factors
-  if (container == PAR_INTERFILE && c["exam"]["frames"].size() >= 2 && S[0] == S[1] && S[0] != 1.F)
+  const float S0 = predict_scale(t, setting, data[0]), S1 = predict_scale(t, setting, data[1]);
+  if (S0 == S1 && S0 != 1.F)
     return "C10:parametric-interfile-multiple-time-frames-quantification-units";
   return "";
 }
@@ -1429,7 +1349,7 @@ base_case()
   json c;
   c["container"] = SINGLE;
   c["grid"] = { { "min", { -2, 3, -7 } }, { "size", { 2, 3, 4 } }, { "vs", { 2.5, 1.25, 0.75 } }, { "origin", { 12.5, -30., 7.125 } } };
-  c["fmt"] = { { "type", T_FLOAT }, { "big_endian", false }, { "scale_mode", 0 }, { "scale_idx", 0 }, { "via_parser", false }, { "multi_default", false }, { "wide_guard", false } };
+  c["fmt"] = { { "type", T_FLOAT }, { "big_endian", false }, { "scale_mode", 0 }, { "scale_idx", 0 }, { "via_parser", false }, { "multi_default", false } };
   c["vals"] = { { "kind", 0 }, { "neg", true }, { "exp", 5 }, { "seed", 12345 } };
   c["trunc"] = { { "mode", 0 }, { "file", 0 }, { "extra", 7 } };
   c["exam"] = { { "mod", 1 },
@@ -1483,7 +1403,6 @@ fixed_cases(int)
         c["fmt"]["big_endian"] = (type + cont) % 2 == 0;
         c["fmt"]["scale_mode"] = 1;
         c["fmt"]["scale_idx"] = 4;
-        c["fmt"]["wide_guard"] = !g_no_exclude && (type == T_UINT || type == T_LONG || type == T_ULONG);
         c["vals"]["kind"] = (type == T_UCHAR || type == T_USHORT || type == T_UINT || type == T_ULONG) ? 1 : 0;
         c["trunc"] = { { "mode", 2 }, { "file", type % 3 }, { "extra", 1 + type } };
         v.push_back(c);
@@ -1507,7 +1426,7 @@ enumerate(uint64_t idx, int, json& c)
   c = base_case();
   c["container"] = cont;
   fit_frames(c);
-  c["exam"]["mod"] = (!g_no_exclude && (cont == DYN_INTERFILE || cont == PAR_INTERFILE)) ? 1 : 1 + int(idx % 2); // F6
+  c["exam"]["mod"] = 1 + int(idx % 2);
   c["exam"]["rot"] = int(idx % 2);
   if (!g_no_exclude && cont == PAR_INTERFILE && type != T_FLOAT)
     c["exam"]["frames"].erase(c["exam"]["frames"].begin() + 1, c["exam"]["frames"].end()); // F5
@@ -1516,8 +1435,6 @@ enumerate(uint64_t idx, int, json& c)
   c["fmt"]["via_parser"] = parser;
   c["fmt"]["scale_mode"] = scale_sel == 0 ? 0 : 1;
   c["fmt"]["scale_idx"] = scale_sel == 1 ? 5 : 0;
-  const bool wide = type == T_UINT || type == T_LONG || type == T_ULONG;
-  c["fmt"]["wide_guard"] = !g_no_exclude && wide && scale_sel != 0;
   c["vals"]["kind"] = kind;
   c["vals"]["neg"] = (idx / 7) % 2 == 0;
   c["vals"]["exp"] = int(idx % N_EXPONENTS);
